@@ -29,6 +29,9 @@ type c08Schedule struct {
 	Seed     uint32 `json:"seed"`  // drives the per-operation delays
 	Gate     int    `json:"gate"`  // hold first reads until this many files are open (0 = no gate)
 	Order    []int  `json:"order"` // release order choices for gated readers
+	// HashGate > 0: the receiver's first ContentHasher call (a user callback) is held
+	// until the receiver has sent that many packets (requests of later files), or 400 ms
+	HashGate int `json:"hashgate,omitempty"`
 }
 
 type c08Case struct {
@@ -73,6 +76,12 @@ func genC08(t *rapid.T) *c08Case {
 		if rapid.Bool().Draw(t, li+"gated") {
 			s.Gate = rapid.SampledFrom([]int{2, 3, 4}).Draw(t, li+"gate")
 			s.Order = rapid.SliceOfN(rapid.IntRange(0, 3), 1, 8).Draw(t, li+"order")
+		}
+		if c.Many >= 150 && rapid.IntRange(0, 2).Draw(t, li+"hashgated") == 0 {
+			s.HashGate = rapid.SampledFrom([]int{130, 140, 200}).Draw(t, li+"hashgate")
+			if s.HashGate > c.Many-5 {
+				s.HashGate = c.Many - 5
+			}
 		}
 		c.Schedules = append(c.Schedules, s)
 	}
@@ -204,9 +213,18 @@ func c08RunOne(env *h.Env, c *c08Case, tree *h.Tree, idx int, s c08Schedule) (*c
 	}
 	var nl h.NotifyLog
 	var hn, nn int64
+	var gatePair atomic.Pointer[h.Pair]
 	opt := fsutil.ReceiveOpt{
 		ContentHasher: func(st *types.Stat) (hash.Hash, error) {
-			perturb(s.Seed, 2, atomic.AddInt64(&hn, 1))
+			k := atomic.AddInt64(&hn, 1)
+			if s.HashGate > 0 && k == 1 {
+				if p := gatePair.Load(); p != nil {
+					for i := 0; i < 400 && p.R.SendCount() < s.HashGate; i++ {
+						time.Sleep(time.Millisecond)
+					}
+				}
+			}
+			perturb(s.Seed, 2, k)
 			return h.Hasher(st)
 		},
 		NotifyHashed: func(k fsutil.ChangeKind, p string, fi os.FileInfo, err error) error {
@@ -235,6 +253,7 @@ func c08RunOne(env *h.Env, c *c08Case, tree *h.Tree, idx int, s c08Schedule) (*c
 		opt.ProgressCb, sendProg = nil, nil
 	}
 	res := h.RunSync(mem, dstDir, h.SyncOpt{Capacity: s.Capacity, Recv: opt, SendProgFn: sendProg, Setup: func(p *h.Pair) {
+		gatePair.Store(p)
 		p.S.BeforeSend = func(n int, _ *types.Packet) error { perturb(s.Seed, 4, int64(n)); return nil }
 		p.S.BeforeRecv = func(n int) error { perturb(s.Seed, 5, int64(n)); return nil }
 		p.R.BeforeSend = func(n int, _ *types.Packet) error { perturb(s.Seed, 6, int64(n)); return nil }
